@@ -461,6 +461,7 @@ Spans of submodels differ:
             **kwargs,
         )
 
+        iteration = 0  # Remains zero if `max_iter` allows no iterations
         for iteration in range(1, max_iter + 1):
             previous_values = copy.deepcopy(current_values)
 
